@@ -122,7 +122,7 @@ Ltac idx_step :=
     destruct (idx_ok b i) as [x H]; [try lia | rewrite H; cbn [bind]]
   end.
 
-Ltac done_return := eexists; split; [reflexivity | try exact I].
+Ltac done_return := eexists; split; [reflexivity | cbv beta iota; try exact I].
 
 (* ------------------------------------------------------------------ AV1 *)
 
